@@ -5,6 +5,7 @@ import (
 	"fmt"
 	"go/token"
 	"os"
+	"os/exec"
 	"runtime/debug"
 	"sort"
 	"strings"
@@ -123,14 +124,53 @@ func main() {
 		fmt.Fprintf(os.Stderr, "bad tier %q\n", *tier)
 		os.Exit(2)
 	}
+	// The analysis runs in a child process. A Go fatal error (stack overflow, out of memory) cannot be recovered
+	// from inside; if the child dies that way the property is undecided on this tree, and undecided fails: a second
+	// child loads the tree, records one E0.undecided violation instead of evaluating the rules, writes the
+	// evidence and exits 1 with its VIOLATION line. Exit 3 of the child = the tree does not load (exit 2 here).
+	mode := os.Getenv("TONGOCHECK_CHILD")
+	if mode == "" {
+		run := func(m string) int {
+			cmd := exec.Command(os.Args[0], os.Args[1:]...)
+			cmd.Env = append(os.Environ(), "TONGOCHECK_CHILD="+m)
+			cmd.Stdin, cmd.Stdout, cmd.Stderr = os.Stdin, os.Stdout, os.Stderr
+			if err := cmd.Run(); err != nil {
+				if ee, ok := err.(*exec.ExitError); ok {
+					return ee.ExitCode()
+				}
+				return -1
+			}
+			return 0
+		}
+		switch rc := run("1"); rc {
+		case 0, 1:
+			os.Exit(rc)
+		case 3:
+			os.Exit(2)
+		default:
+			fmt.Fprintf(os.Stderr, "tongocheck: the analysis process died (exit %d): reporting the property as undecided\n", rc)
+			rc2 := run("crash")
+			if rc2 == 3 {
+				rc2 = 2
+			}
+			os.Exit(rc2)
+		}
+	}
 	c, err := load(nil)
 	if err != nil {
 		// a tree that does not type-check cannot be decided: broken check, not a violation
 		fmt.Fprintf(os.Stderr, "tongocheck: %v\n", err)
-		os.Exit(2)
+		os.Exit(3)
 	}
 	c.Prop = *prop
 	c.Tier = *tier
+	if mode == "1" && os.Getenv("TONGOCHECK_SELFTEST_CRASH") != "" {
+		selfTestOverflow(1) // exercises the fail-closed path above (tools/selftest_crash.sh)
+	}
+	if mode == "crash" {
+		c.bad("E0.undecided", "rule evaluation died with a fatal runtime error", token.NoPos, "the analysis process was killed by the Go runtime (stack overflow or out of memory) while evaluating this property on this tree: the analysed code has a shape the analysis does not terminate on, so its obligations are undecided - undecided fails")
+		os.Exit(c.finish(propInfo{explanation: "incomplete run: the analysis process died; see the E0.undecided violation"}))
+	}
 	defer func() {
 		if r := recover(); r != nil {
 			fmt.Fprintf(os.Stderr, "tongocheck: analysis panic: %v\n", r)
@@ -181,4 +221,12 @@ func filepathBase(s string) string {
 		return s[i+1:]
 	}
 	return s
+}
+
+// selfTestOverflow dies with the Go runtime's unrecoverable "stack overflow" - what a non-terminating recursion
+// in a rule would do.
+func selfTestOverflow(n int) int {
+	var pad [1 << 12]byte
+	pad[n%len(pad)] = byte(n)
+	return selfTestOverflow(n+1) + int(pad[0])
 }
